@@ -7,3 +7,8 @@ ASSUMPTIONS = ['leaf count < 2^64']
 
 def run(rep, rng, tier):
     run_typelevel(rep, "C06", cases_c06, rng, tier, RULE, ASSUMPTIONS, allow_bv=True)
+    # the one place in the repository where the metadata sizes a buffer: `MqttClient::new` admits a prefix iff
+    # prefix + "/settings" + Metadata::max_length("/") fits MAX_TOPIC_LENGTH (probe shared with the C10 check)
+    import mqcheck
+    n, _bad = mqcheck.prefix_probe(rep)
+    rep.coverage["mqtt_prefix_limit_cases"] = n
